@@ -157,7 +157,7 @@ N_MENUS = 7
 # object descriptors: ['R', menu] | ['G', group, menu] | ['C', group, channel, slot, n, menu]
 # slot 0/1/2 selects which entry of the program's kind assignment the channel uses.
 
-GROUPS = {'g': 'g', 'h': "h'/x"}
+GROUPS = {'g': 'g', 'h': "h'/x", 'e': ''}
 
 
 def call_shapes():
@@ -182,6 +182,8 @@ def call_shapes():
         [['R', 0], ['G', 'g', 0], ['G', 'h', 0]],
         [C('g', 'a', 0, 3, 1), C('g', 'b', 1, 3, 3), C('h', 'c', 2, 3, 4)],
         [C('g', 'a', 0, 1), C('g', 'a', 0, 1)],   # duplicate path: the writer must reject it
+        [C('e', '', 0, 1)],                       # empty group and channel names
+        [['G', 'e', 2], C('e', 'a', 1, 3)],
     ]
     return shapes
 
